@@ -180,6 +180,16 @@ def before_in_function(cfg, a, b):
     return path_exists(cfg, ba, bb)
 
 
+def earlier_in_block(cfg, a, b):
+    """a and b are evaluated in the same basic block and a comes first"""
+    ba, bb = cfg.stmt_block(a), cfg.stmt_block(b)
+    if ba is None or ba != bb:
+        return False
+    el = cfg.blocks[ba]["el"]
+    ia, ib = _elem_index(cfg, el, a), _elem_index(cfg, el, b)
+    return ia is not None and ib is not None and ia < ib
+
+
 def _elem_index(cfg, el, n):
     x = n
     while x is not None:
